@@ -22,6 +22,8 @@ META = {
     "itself (surrogates, code points) and float spellings are value-level and not decided.",
     "level_note": "Trusts json.dumps/json.loads round-tripping for JSON-like values and Python int arithmetic.",
 }
+META["technique"] += '; newline-mode audit of every output buffer construction (shared with C06.R2)'
+META["level_text"] += ' Also decided (R5): no output buffer is built with a newline mode that rewrites CR/CRLF.'
 
 DECODERS = {"parse_string_or_identifier", "parse_string_or_path", "parse_primitive", "parse_boolean_primitive"}
 
